@@ -927,6 +927,10 @@ class APIConnection:
         try:
             # MESSAGE_NUMBER_TO_PROTO is 0-indexed
             # but the message type is 1-indexed
+            if msg_type_proto < 1:
+                # There is no message type 0, a negative index would
+                # wrap around and select the last message type instead
+                raise IndexError(msg_type_proto)
             klass = MESSAGE_NUMBER_TO_PROTO[msg_type_proto - 1]
             msg: message.Message = klass()
             # MergeFromString instead of ParseFromString since
